@@ -1,6 +1,6 @@
 """C16 — --json output is a single value and tells the truth."""
 import json, re
-from .. import common, framework, fndiff, cmdrun, gen, oracles
+from .. import common, framework, fndiff, cmdrun, gen, oracles, explore2
 from ..histories import run_history, replay_trace
 
 WEIGHTS = {"new_task": 20, "new_epic": 6, "set": 22, "claim": 8, "claim_oldest": 8, "sequence": 10, "sequence_rm": 3, "plan": 5, "prune": 4,
@@ -102,7 +102,15 @@ def run(ctx):
     r = gen.Rng(ctx.seed * 1000003 + 16)
     for h in range(25 if ctx.quick else 400):
         run_history(ctx, r.fork(), 30, WEIGHTS, oracle)
-    ctx.cov["rule"] = ("every mutating command with --json in all input modes on generated states, plus the read commands; strict single-value parse of raw stdout; "
+    # what a success value reports must be what the command did, also when another writer runs between any two of its steps: the reply of
+    # every command in a two-process schedule is compared with its reply in the serial order that has the same exits and final state
+    for i in range(8 if ctx.quick else 120):
+        ka, kb = [(("prune",), ("close", "reopen")), (("claim_oldest", "claim_id"), ("claim_oldest", "set+state")), (("set+state", "set"), ("prune", "set+state")),
+                  (("new+state", "new"), ("new", "prune")), (("plan",), ("new", "set")), (("prune",), ("close", "reopen", "new+state"))][i % 6]
+        explore2.explore(ctx, "C16", r.fork(), kindsA=ka, kindsB=kb, max_points=(7 if ctx.quick else 40), state_cmds=10,
+                         weights={"new_task": 35, "new_epic": 6, "set": 35, "claim_oldest": 8, "sequence": 10})
+    ctx.cov["rule"] = ("two-process schedules (A parked after each store call, B complete / holding the lock): replies = replies of the equivalent serial run; "
+                       "every mutating command with --json in all input modes on generated states, plus the read commands; strict single-value parse of raw stdout; "
                        "failure ⇒ stderr non-empty and stdout empty or one error object; reply fields compared with the replay of the log right after")
 
 
